@@ -142,6 +142,7 @@ impl World {
             }),
             Op::QInt(_, d) => Ok(*d),
             Op::NewInput(v) => Ok(*v),
+            Op::QK(n, k) => self.value_of(F::of_kind(match k { Kind::NoEq => Kind::NoEq, Kind::Lru => Kind::Lru, _ => Kind::Ev }), *n, 0),
             _ => return Expect::Unit,
         };
         match r {
